@@ -2,7 +2,8 @@
 From Coq Require Import ZArith List Bool Lia.
 From RV.Model Require Import Base Word Conv Gen.
 From RV.Proofs Require Import BaseFacts.
-From RV.Proofs Require PfC01 PfConv PfC07 PfShift.
+From RV.Proofs Require PfC01 PfConv PfC07 PfShift PfFloatUint.
+From RV.Model Require ApproxPow2 Shift.
 From RV.Run Require Import RunC04c.
 Local Open Scope Z_scope.
 
@@ -219,10 +220,64 @@ Qed.
 Lemma forallb_inWb l : Forall inW l -> forallb inWb l = true.
 Proof. intros H. apply forallb_forall. rewrite Forall_forall in H. intros x Hx. apply inWb_iff; auto. Qed.
 
+(* ---------- approx_pow2: whatever the libm estimate b64, a returned value is canonical ---------- *)
+Lemma ok_of_try_from_u64 bits v : 0 <= bits -> 0 <= v < B ->
+  exists r, ApproxPow2.ok_of (Conv.try_from_u64 bits v) = Val r /\
+            match r with Some w => canon bits w | None => True end.
+Proof.
+  intros Hb Hv. unfold ApproxPow2.ok_of. rewrite PfConv.try_from_u64_spec by auto. cbn [obind].
+  unfold PfConv.res_of. destruct (Z.ltb_spec v (2 ^ bits)).
+  - eexists. split; [reflexivity|]. apply PfFloatUint.uint_of_canon; lia.
+  - eexists. split; [reflexivity|]. exact I.
+Qed.
+
+Theorem approx_pow2_canon bits x b64 : 0 <= bits -> inW x -> inW b64 ->
+  exists r, ApproxPow2.approx_pow2 bits x b64 = Val r /\
+            match r with Some w => canon bits w | None => True end.
+Proof.
+  intros Hb Hx Hb64. unfold ApproxPow2.approx_pow2.
+  destruct (SpecFloat.SFltb (ApproxPow2.f64 x) ApproxPow2.LN2_1P5).
+  { destruct (SpecFloat.SFltb (ApproxPow2.f64 x) ApproxPow2.MINUS_ONE).
+    - eexists. split; [reflexivity|]. apply canon_uZERO, Hb.
+    - apply ok_of_try_from_u64; [exact Hb | rewrite B_val; lia]. }
+  destruct (SpecFloat.SFltb (ApproxPow2.usize_as_f64 bits) (ApproxPow2.f64 x)).
+  { eexists. split; [reflexivity | exact I]. }
+  set (shift := ApproxPow2.trunc_usize (ApproxPow2.f64 x)).
+  destruct (Z.leb_spec 63 shift) as [Hs|Hs].
+  - destruct (ok_of_try_from_u64 bits b64 Hb Hb64) as (r & -> & Hr). cbn [obind].
+    destruct r as [v|]; [|eexists; split; [reflexivity | exact I]].
+    eexists. split; [reflexivity|]. unfold Shift.checked_shl.
+    pose proof (PfShift.overflowing_shl_spec bits v (shift - 63) Hb Hr ltac:(lia)) as S.
+    destruct (Shift.overflowing_shl bits v (shift - 63)) as [w f]. destruct S as (Hc & _ & _).
+    destruct f; cbn [Shift.checked_of]; [exact I | exact Hc].
+  - assert (H0 : 0 <= shift).
+    { unfold shift, ApproxPow2.trunc_usize. destruct (ApproxPow2.f64 x) as [s|s| |s m e]; try (destruct s); try lia;
+        try (rewrite B_val; lia).
+      apply Z.min_glb; [|rewrite B_val; lia].
+      destruct (Z.leb_spec 0 e); [apply Z.mul_nonneg_nonneg; [lia | apply Z.pow_nonneg; lia]
+                          | apply Z.div_pos; [lia | apply Z.pow_pos_nonneg; lia]]. }
+    set (sh := 63 - shift). assert (Hsh : 1 <= sh <= 63) by (unfold sh; lia).
+    set (b := Word.shr64 b64 sh + Z.land (Word.shr64 b64 (sh - 1)) 1).
+    assert (Hbr : 0 <= b < B).
+    { unfold b, Word.shr64. unfold inW in Hb64.
+      assert (0 <= b64 / 2 ^ sh <= b64 / 2).
+      { split; [apply Z.div_pos; [lia | apply Z.pow_pos_nonneg; lia]|].
+        apply Z.div_le_compat_l; [lia|]. split; [lia|].
+        change 2 with (2 ^ 1) at 1. apply Z.pow_le_mono_r; lia. }
+      assert (0 <= Z.land (b64 / 2 ^ (sh - 1)) 1 <= 1).
+      { generalize (b64 / 2 ^ (sh - 1)). intros y.
+        change (Z.land y 1) with (Z.land y (Z.ones 1)). rewrite Z.land_ones by lia. change (2 ^ 1) with 2.
+        pose proof (Z.mod_pos_bound y 2 ltac:(lia)). lia. }
+      assert (b64 / 2 < 2 ^ 63) by (apply Z.div_lt_upper_bound; [lia | rewrite B_val in Hb64; lia]).
+      rewrite B_val. lia. }
+    destruct (Z.leb_spec B b); [lia|].
+    apply ok_of_try_from_u64; assumption.
+Qed.
+
 Theorem C04c_all c : wf c -> spec c (run c) = true.
 Proof.
   destruct c as [bits l|bits l|bits s|bits s|bits s|bits s|bits s|bits k|bits sh ws|bits sh a ws
-                |bits bs|bits seed arr|bits seed size ws|bits which count]; cbn [wf spec run].
+                |bits bs|bits seed arr|bits seed size ws|bits which count|bits x b64]; cbn [wf spec run].
   - intros (Hb & Hl & Hw). unfold M. rewrite from_limbs_rejects by auto.
     destruct (eval l <? 2 ^ bits); [apply expect_refl|reflexivity].
   - intros (Hb & Hl & Hw). unfold M. rewrite from_limbs_rejects by auto.
@@ -258,4 +313,6 @@ Proof.
     rewrite from_limbs_unmasked_spec, modp2_spec by (auto; lia). apply expect_refl.
   - intros (Hb & Hl & Hw). rewrite quickcheck_spec, modp2_spec by (auto; lia). cbn [obind]. apply expect_refl.
   - intros Hb. apply expect_refl.
+  - intros (Hb & Hx & Hb64). destruct (approx_pow2_canon bits x b64 Hb Hx Hb64) as (r & -> & Hc).
+    cbn [obind]. destruct r as [v|]; [now apply canonb_iff | reflexivity].
 Qed.
